@@ -1,11 +1,11 @@
 (* split "lhs => rhs" at the first " => " (rhs may be empty) *)
 let split_arrow (s : string) : (string * string) option =
-  let n = String.length s in
+  let n = Stdlib.String.length s in
   let rec find i =
     if i + 2 > n then None
-    else if i + 1 < n && s.[i] = '=' && s.[i + 1] = '>' then Some i
+    else if i + 1 < n && (Stdlib.String.get s (i)) = '=' && (Stdlib.String.get s (i + 1)) = '>' then Some i
     else find (i + 1)
   in
   match find 0 with
-  | Some i -> Some (String.sub s 0 i, if i + 2 <= n then String.sub s (i + 2) (n - i - 2) else "")
+  | Some i -> Some (Stdlib.String.sub s 0 i, if i + 2 <= n then Stdlib.String.sub s (i + 2) (n - i - 2) else "")
   | None -> None
